@@ -16,3 +16,25 @@ try:
     print('selftest ok: E1 pipeline (clang -> ir2c -> cbmc) works')
 finally:
     shutil.rmtree(d, ignore_errors=True)
+
+# E2: litmus scenarios with known answers (races, deadlock, assertion)
+try:
+    import z3  # noqa
+    import e2
+    exp = {1: (0, 0, 0), 2: (1, 0, 0), 3: (0, 0, 0), 4: (0, 0, 0), 5: (0, 0, 0), 6: (0, 0, 0), 7: (1, 0, 0), 8: (0, 1, 0)}
+    d = tempfile.mkdtemp(prefix='vf_litmus_')
+    try:
+        for lit in sorted(exp):
+            n = 3 if lit == 4 else 2
+            ll = e2.compile_scenario(os.path.join(VERIF, 'harness', 'litmus.cpp'), d, ['LIT=%d' % lit])
+            r = e2.analyse(ll, n, {'loop_bound': 3}, mode='hb'); r.pop('M')
+            races = sum(1 for v in r['violations'] if v.get('race'))
+            dl = sum(1 for v in r['violations'] if v['assertion'].startswith('deadlock'))
+            asr = len(r['violations']) - races - dl
+            assert (races, dl, asr) == exp[lit], 'litmus %d: got races=%d deadlock=%d assert=%d, expected %s' % (lit, races, dl, asr, exp[lit])
+        print('selftest ok: E2 litmus suite (8 scenarios: MP rel/acq, relaxed, fences, release sequence, SB, CAS lock, lost wake-up)')
+    finally:
+        shutil.rmtree(d, ignore_errors=True)
+except ImportError:
+    print('selftest: z3 python module not available in this interpreter - run with python3-vt')
+    sys.exit(1)
